@@ -172,6 +172,7 @@ class Sim:
         self.events = []
         self.violations = []
         self.returned = []
+        self.torn = {}  # id -> object whose (re-)initialisation was rejected
         self.stats = {
             "steps": 0,
             "comparisons": 0,
@@ -228,8 +229,15 @@ class Sim:
         d = self.ds_spec[ds_id]
         return (d["container"], tuple(d["columns"]), d["index"]["kind"], d["index"]["start"], d.get("dtype", "float64"))
 
+    def is_torn(self, cl):
+        if not self.torn:
+            return False
+        return any(id(o) in self.torn for o in subobjects(cl.obj))
+
     def comparable(self, cl, cur):
         if cl.lin == UNSPEC or cl.stale:
+            return False
+        if self.is_torn(cl):
             return False
         if not cl.is_det and cl.amb:
             return False
@@ -358,11 +366,18 @@ class Sim:
                 if isinstance(cj.lin, list):
                     cj.stale = True
         if ev["res"] != "ok":
-            # a rejected set_params may leave every object along the path torn
+            # a rejected set_params may leave every object along the path torn (its
+            # __init__ raised half-way): nothing is specified about such an object until
+            # a later set_params / reset re-initialises it successfully
+            for o in chain:
+                self.torn[id(o)] = o
             for j in ev["holders"]:
                 self.clients[j].lin = UNSPEC
             cl.lin = UNSPEC
             self.probe("set_params_rejected")
+        else:
+            for o in chain:
+                self.torn.pop(id(o), None)
         if n_holding > 1:
             self.probe("set_params_on_shared_object")
         if len(chain) > 1:
@@ -451,11 +466,13 @@ class Sim:
         try:
             cl.obj.reset()
             ev["res"] = "ok"
+            self.torn.pop(id(cl.obj), None)
             cl.lin, cl.fitspec, cl.stale, cl.amb = None, None, False, False
         except Exception as e:  # noqa: BLE001
             # a rejected reset (its __init__ raised) leaves the object torn
             ev["res"] = "exc:" + type(e).__name__
             cl.lin = UNSPEC
+            self.torn[id(cl.obj)] = cl.obj
             ev["torn"] = [j for j, t in enumerate(trees) if id(cl.obj) in t]
             for j in ev["torn"]:
                 self.clients[j].lin = UNSPEC
@@ -706,9 +723,14 @@ class Sim:
         # fit's own outcome depends only on (hyper-parameters, X): always comparable when
         # a twin can be built
         tw = None
-        if cur is not None:
+        torn = self.is_torn(cl)
+        if cur is not None and not torn:
             tw = self.fresh_fit(cur, arg, out_op)
-        if res[0] == "ok":
+        if torn:
+            cl.lin = UNSPEC
+            ev["cmp"] = "torn"
+            self.probe("call_on_torn_object")
+        elif res[0] == "ok":
             cl.lin = [(arg, ds_id)]
             cl.fitspec = cur
             cl.stale = False
